@@ -758,8 +758,24 @@ def explore(harness_mod, jobs, opts, workers=None, max_paths=2000, budget_s=None
                 fut = ex.submit(_worker_run, (jobs[i][0], jobs[i][1], prefix))
                 pending[fut] = i
         submit()
+        hard = (budget_s + max(90.0, 0.5 * budget_s)) if budget_s else None      # paths still running then are abandoned
         while pending:
-            done, _ = cf.wait(list(pending), return_when=cf.FIRST_COMPLETED)
+            done, _ = cf.wait(list(pending), timeout=(15.0 if hard else None), return_when=cf.FIRST_COMPLETED)
+            if hard and not done and time.time() - t0 > hard:
+                # watchdog: a path that runs far beyond the wall budget is given up (reported as unsupported, job incomplete);
+                # the workers are terminated so that the check ends
+                for fut, i in list(pending.items()):
+                    complete[i] = False
+                    results[i].append({"prefix": [], "status": "unsupported", "why": "path still running %d s after the wall budget: abandoned" % int(time.time() - t0 - budget_s),
+                                       "obligations": [], "children": [], "queries": 0, "seconds": 0, "functions": []})
+                pending.clear()
+                queue[:] = []
+                for pr in list(getattr(ex, "_processes", {}).values()):
+                    try:
+                        pr.terminate()
+                    except Exception:      # noqa
+                        pass
+                break
             for fut in done:
                 i = pending.pop(fut)
                 try:
